@@ -101,6 +101,16 @@ func c03(e *Env) {
 	if len(sp.auditWrite) == 0 {
 		ob3.Unknown("-", "no audit write found in Execute's call tree")
 	}
+	// ... and "written" means: at <final path>.audit.json, for every output that will be renamed (stream flag false) - an
+	// audit file parked in the temp dir and moved later is finalised AFTER its output
+	{
+		isAW := nodeSet(sp.auditWrite)
+		for _, s := range sp.auditWrite {
+			if !e.forAllOutputs(ob3, g, s, func(m *core.Node) bool { return isAW[m] }, core.Scenario{FieldLoad: e.assumeStream(false)}, "writing the audit record next to the final path") {
+				break
+			}
+		}
+	}
 	// ---- R4 FIFO leftovers in Process.Run
 	e.fifoLeftoverRule("R4")
 	// ---- R7 shared with C17.R6: the re-run completes also past streaming connections (a skipped consumer drains its pipes)
